@@ -12,6 +12,7 @@ MUTATIONS = (          # top-level fields of the operation, in document order
     ("m2 { y x }", "m1 { x }"),
     ("m1 { x }",),
     ("a: m1 { x }", "b: m1 { y }", "m3"),
+    ("m1 { x }", "__typename", "m2 { y }", "t: __typename", "m3"),          # meta-fields between the mutations (skipped entirely when introspection is disabled)
 )
 # how the same top-level fields are spelled in the document: (template, operation name); %A = all fields, %H = the first, %T = the rest
 SHAPES = (
@@ -34,16 +35,21 @@ def spell(fields, shape):
     return tpl.replace("%A", " ".join(fields)).replace("%H", fields[0]).replace("%T", rest), opname
 
 
-def _serial(q: int, sh: int, k1: int, k2: int, kx: int, ky: int, cfg: int, s0: int, s1: int, s2: int, s3: int, s4: int, s5: int, s6: int) -> bool:
+def _serial(di: bool, q: int, sh: int, k1: int, k2: int, kx: int, ky: int, cfg: int, s0: int, s1: int, s2: int, s3: int, s4: int, s5: int, s6: int) -> bool:
     """
     pre: 0 <= q < len(MUTATIONS) and 0 <= sh < len(SHAPES) and 0 <= k1 <= 3 and 1 <= k2 <= 2 and 1 <= kx <= 2 and 0 <= ky <= 1 and 0 <= cfg <= 3
     pre: 0 <= s0 <= 6 and 0 <= s1 <= 5 and 0 <= s2 <= 4 and 0 <= s3 <= 3 and 0 <= s4 <= 2 and 0 <= s5 <= 1 and s6 == 0
-    pre: shard_of(q * 4 + cfg + sh)
+    pre: shard_of(q * 4 + cfg + sh + s0)
     pre: thorough() or sh == 0 or (q == 0 and s3 == 0)
+    pre: thorough() or q != 5 or (s3 == 0 and s4 == 0)
+    pre: not di or q == 5 or (thorough() and sh == 0)
     post: _
     """
+    DI = True if di else False
     Q, OPNAME = spell(pick(q, MUTATIONS), concrete_int(sh, 0, len(SHAPES) - 1))
     KW = {"operation_name": OPNAME} if OPNAME else {}
+    if DI:
+        KW["disable_introspection"] = True
     K1, K2, KX, KY, C = concrete_int(k1, 0, 3), concrete_int(k2, 1, 2), concrete_int(kx, 1, 2), concrete_int(ky, 0, 1), concrete_int(cfg, 0, 3)
     sched = [s0, s1, s2, s3, s4, s5, s6]
     if C == 0 and any(s != 0 for s in sched):
@@ -96,11 +102,11 @@ def serial_ok(log, base_log=None):
 CONDITIONS = [
     Cond(
         name="serial", fn=_serial, quick=150, thorough=900, per_path=60, shards_quick=16, shards_thorough=20,
-        bound="5 mutation operations (1..3 top-level fields, nested custom sub-resolvers, aliases of the same field) x %d spellings of the same top-level fields (plain, named / typed inline / untyped inline / directive inline fragment, "
+        bound="6 mutation operations (1..3 top-level fields, nested custom sub-resolvers, aliases of the same field, meta-fields between the mutations) x introspection enabled / disabled x %d spellings of the same top-level fields (plain, named / typed inline / untyped inline / directive inline fragment, "
               "nested fragments, split between selection and fragment, selected by name among several operations; quick: all spellings for the 3-field operation only, 4th completion choice fixed) x" % len(SHAPES) + " resolver kinds (m1: default/value/ResolverError/ValueError; m2, x: value/ResolverError; y: default/value) "
               "x 4 configurations x EVERY completion order (<= 7 in-flight tasks)",
-        symbolic={"q": "choice: operation", "sh": "choice: spelling", "k1,k2,kx,ky": "choice: resolver kinds / failure position", "cfg": "choice", "s0..s6": "choice: completion order"},
+        symbolic={"di": "choice: disable_introspection", "q": "choice: operation", "sh": "choice: spelling", "k1,k2,kx,ky": "choice: resolver kinds / failure position", "cfg": "choice", "s0..s6": "choice: completion order"},
         assumptions=["as C08 (stub pool, DetLoop); 'invoked' = the moment the resolver body runs, which the stub pool delays until the schedule picks the task"],
-        witness={"q": 0, "sh": 1, "k1": 1, "k2": 1, "kx": 1, "ky": 1, "cfg": 1, "s0": 0, "s1": 0, "s2": 0, "s3": 0, "s4": 0, "s5": 0, "s6": 0},
+        witness={"di": False, "q": 0, "sh": 1, "k1": 1, "k2": 1, "kx": 1, "ky": 1, "cfg": 1, "s0": 0, "s1": 0, "s2": 0, "s3": 0, "s4": 0, "s5": 0, "s6": 0},
     ),
 ]
